@@ -1,42 +1,43 @@
 (* C03 - Gob/binary encode -> decode round trip preserves every vocabulary property.
 
-   Model: Model/Gob.v (abstract wire, leaf codecs, gobEncodeItem / gobDecodeItem, the table interpreters
-   gmap / gunmap), instantiated in Model/GobInst.v with the property tables the translator regenerates from
-   map<T>Properties / unmap<T>Properties on every run (Gen/GobW.v, Gen/GobR.v), the type-name switches
-   (Gen/Switches.v) and the struct layouts (Gen/Layout.v).  Normal form and domain: Model/GobNorm.v.
+   Model: Model/Gob.v (abstract wire, gobEncodeItem / gobDecodeItem, the table interpreters gmap / gunmap),
+   instantiated in Model/GobInst.v with what the translator regenerates from the source on every run:
+   the property tables of map<T>Properties / unmap<T>Properties (Gen/GobW.v, Gen/GobR.v), the statements of
+   the GobEncode / GobDecode methods of the leaf structs Source / PublicKey / Endpoints (gobw_leaf / gobr_leaf),
+   the order in which gobDecodeItem tries the shapes (gob_sniff), the type-name switches (Gen/Switches.v) and
+   the struct layouts (Gen/Layout.v).  Normal form and domain: Model/GobNorm.v.  Table conditions:
+   Model/GobCheck.v (the 14 struct kinds) and Model/GobWhole.v (leaf structs, sniffing order, whole condition).
    encoding/gob is external: assumptions g1-g4 stated in Model/Gob.v, validated by harness/c03.go.
 
-   FULL STATEMENT (the target; NOT proved in full, see below):
+   THE FULL STATEMENT IS PROVED:
 
      C03_roundtrip :
        forall x, wf_gob genv x = true ->
        exists y, gdec genv (genc genv x) = Ok y /\
                  norm_item layout_of layout_endpoints y = norm_item layout_of layout_endpoints x.
 
-   and the same for T.GobEncode / T.GobDecode (genc_k / gdec_k, aliases MarshalBinary / UnmarshalBinary)
-   without the type-name hypothesis on the outermost struct.
+   for every value x of any depth, as the instance at the regenerated tables of the GENERIC theorem
+   C03_roundtrip_generic (for every environment E with gob_whole_ok E = true); the condition is decided
+   by vm_compute on the tables of this run (C03_whole_condition), so a source change that breaks it shows
+   up as a broken obligation.  C03_method_roundtrip is the same for T.GobEncode / T.GobDecode into a
+   zero value (aliases MarshalBinary / UnmarshalBinary), without the type-name hypothesis on the
+   outermost struct.
 
-   WHAT IS PROVED (all closed under the global context):
-   * C03_tables_consistent: the table condition holds for the tables generated from the source.  This
-     is the hypothesis of the generic lemmas and it is what a changed key, a dropped block, a wrong
-     decoder or a strengthened guard falsifies (C03_pinned_tables_inconsistent lists what it finds on
-     the tables of the pinned tree).
-   * C03_fields_roundtrip_partial: GENERIC in the tables - for every struct kind whose tables pass the
-     condition, T.GobEncode followed by T.GobDecode into a zero value gives every property other than
-     Endpoints back with the same normal form, for ALL well-shaped field lists, PROVIDED the items
-     nested in the property decode back correctly ([rec_ok], the induction hypothesis of the item-level
-     statement) and the unmap function returns without error.
-     Missing for the full statement: (1) the induction over nested items that discharges [rec_ok] and
-     the sniffing lemma of gobDecodeItem (lists / IRI lists / maps / raw IRIs), (2) that unmap returns Ok
-     (every decoder succeeds on what its encoder wrote: proved per codec pair in C03_codec_pairs_partial,
-     not assembled), (3) the Endpoints leaf codec, (4) assembling the fields into norm_item equality.
-     These parts are covered by the correspondence check and the native evaluation only.
-   * C03_set_property_written_partial, C03_codec_pairs_partial, C03_guards_partial: the three
-     ingredients, each generic.
-   * witnesses: one refutation per defect of the pinned tree against the pinned tables/flags, each also
-     shown repaired; the open finding (type name does not select the struct) refuted as a domain fact. *)
-From AP.Model Require Import Prelude Vocab Bytes Layout Pred Dispatch GobTables Gob GobCheck GobNorm GobInst.
-From AP.Proofs Require Import GobP.
+   The domain [wf_gob]: values of the Go type of their field, and - the EXPLICIT boolean precondition
+   [type_selects] - every struct carries a type name that selects that struct in all three switches
+   (DESIGN 0.3: the wire has no other discriminator).  C03_deep_in_domain is a value inside it,
+   C03_type_name_does_not_select_struct_refuted a value outside it for which the conclusion fails.
+
+   Ingredients, each a theorem: the sniffing lemma (C03_sniffing: no output of gobEncodeItem is taken for
+   another shape by gobDecodeItem, for any order of attempts satisfying sniff_ok), fuel sufficiency of
+   the decoder (C03_decoder_fixpoint), the leaf structs (inside C03_codec_pairs), unmap totality on what
+   map wrote (C03_struct_roundtrip), and the older per-property statements (C03_fields_roundtrip,
+   C03_set_property_written_partial, C03_guards_partial).
+
+   What remains outside: the byte level of encoding/gob (g1-g4), float64 coordinates that are not
+   multiples of 1e-6, and values outside wf_gob. *)
+From AP.Model Require Import Prelude Vocab Bytes Layout Pred Dispatch GobTables Gob GobCheck GobNorm GobInst GobWhole.
+From AP.Proofs Require Import GobP GobLeafP GobWireP GobRtP.
 From AP.Gen Require Import Layout Switches GobW GobR.
 
 (* ---------------------------------------------------------------- table conditions (vm_compute on generated tables) *)
@@ -53,18 +54,106 @@ Proof. vm_compute. reflexivity. Qed.
 Theorem C03_binary_aliases : aliases_ok gob_marshal_binary gob_unmarshal_binary = true.
 Proof. vm_compute. reflexivity. Qed.
 
-(* ---------------------------------------------------------------- generic lemmas, instantiated *)
-Theorem C03_fields_roundtrip_partial :
+(* the leaf structs pass the per-field check one level down, their methods have the expected frame *)
+Theorem C03_leaf_tables_consistent : leaves_ok genv = true /\ leaf_bad_fields genv = [].
+Proof. vm_compute. split; reflexivity. Qed.
+
+(* gobDecodeItem tries the shapes in an order in which no encoder output is mis-sniffed *)
+Theorem C03_sniff_order_ok : sniff_ok (ge_sniff genv) = true.
+Proof. vm_compute. reflexivity. Qed.
+
+(* the whole condition of the round-trip theorem, on the tables of this run *)
+Theorem C03_whole_condition : gob_whole_ok genv = true.
+Proof. vm_compute. reflexivity. Qed.
+
+(* ---------------------------------------------------------------- the round trip, for all values *)
+Theorem C03_roundtrip_generic :
+  forall E : gob_env, gob_whole_ok E = true ->
+  forall x : item, wf_gob E x = true ->
+  exists y, gdec E (genc E x) = Ok y /\
+            norm_item (ge_layout E) (ge_layout_endpoints E) y = norm_item (ge_layout E) (ge_layout_endpoints E) x.
+Proof. exact gob_roundtrip. Qed.
+
+Theorem C03_roundtrip :
+  forall x : item, wf_gob genv x = true ->
+  exists y, gdec genv (genc genv x) = Ok y /\
+            norm_item layout_of layout_endpoints y = norm_item layout_of layout_endpoints x.
+Proof. exact (gob_roundtrip genv C03_whole_condition). Qed.
+
+(* T.GobEncode / T.GobDecode (MarshalBinary / UnmarshalBinary) into a zero T, for every struct kind: no
+   type-name condition on the outermost struct *)
+Theorem C03_method_roundtrip :
+  forall (k : kind) (fs : list (fid * fval)),
+    (forall f v, In (f, v) fs ->
+       match ftype genv k f with Some t => shape_ok t v | None => true end = true /\ wf_gob_fval genv v = true) ->
+    exists out, gdec_k genv k (genc_k genv k fs) = Ok out /\
+                norm_fields layout_of layout_endpoints k out = norm_fields layout_of layout_endpoints k fs.
+Proof. exact (gob_method_roundtrip genv C03_whole_condition). Qed.
+
+(* the sniffing lemma, for ANY order of attempts that satisfies the decidable condition sniff_ok and any
+   decoder [rec] of the nested byte strings: each of the five shapes gobEncodeItem writes is read as what
+   was written *)
+Theorem C03_sniffing :
+  forall (E : gob_env) (rec : wire -> outcome item) (l : list gsniff), sniff_ok l = true ->
+    (exists y, sniff_run E rec l WEmpty = Ok y /\ norm_item (ge_layout E) (ge_layout_endpoints E) y = INil) /\
+    (forall b, sniff_run E rec l (WRaw b) = Ok (IIri false b)) /\
+    (forall ws l', omapM rec ws = Ok l' -> sniff_run E rec l (WList ws) = Ok (IItems false (Some l'))) /\
+    (forall i x ls, dec_iris i = Ok ls -> sniff_run E rec l (WCat (WOpaque i) x) = Ok (IIris false (Some ls))) /\
+    (forall mm, sniff_run E rec l (WMap mm) = dec_object E rec (B "type") mm).
+Proof. exact sniffing_all. Qed.
+
+(* fuel is an artefact of the definition: gobDecodeItem is the fixpoint of its step, and any fuel above the
+   depth of the wire gives the same result *)
+Theorem C03_decoder_fixpoint :
+  forall (E : gob_env) (w : wire),
+    gdec E w = dec_step E (gdec E) w /\
+    forall n m, (wire_depth w < n)%nat -> (wire_depth w < m)%nat -> dec_fuel E n w = dec_fuel E m w.
+Proof. exact decoder_fixpoint. Qed.
+
+(* ---------------------------------------------------------------- per-struct and per-property statements *)
+(* GENERIC in the level (struct kinds; leaf structs one level down): a struct whose tables pass struct_ok,
+   written and read back into [init], has every property back up to the normal form, AND the read statements
+   all succeed (unmap totality on what map wrote) *)
+Theorem C03_struct_roundtrip :
+  forall (E : gob_env) (rec : wire -> outcome item) enc dec fits pok,
+    (forall t cw cr ov cur,
+       pok t cw cr = true ->
+       (forall v, ov = Some v -> shape_ok t v = true) ->
+       (forall v i, ov = Some v -> In i (items_of v) -> rec_ok E rec i) ->
+       rec_ok E rec INil ->
+       (cw <> CwIri -> cw <> CwType -> cw <> CwRawBytes -> cur_ok cur) ->
+       (t = TItems -> is_item_codec cw = true -> exists l, ov = Some (FItems (Some l))) ->
+       (is_item_codec cw = true -> forall s, ov = Some (FStr s) -> s = [] \/ iri_nilish s = false) ->
+       exists v', dec cr cur (enc cw (option_map (pre_fval E) ov)) = Ok v' /\
+                  norm_fval (ge_layout E) (ge_layout_endpoints E) v' =
+                  match ov with Some v => norm_fval (ge_layout E) (ge_layout_endpoints E) v | None => None end) ->
+    (forall t cw cr, pok t cw cr = true -> forall cur cur' w v, dec cr cur w = Ok v -> exists v', dec cr cur' w = Ok v') ->
+    forall L W R, struct_ok fits pok L W R = true ->
+    forall fs, rec_ok E rec INil -> forall init,
+    (forall d v, In d L -> getf (fd_fid d) fs = Some v -> shape_ok (fd_type d) v = true) ->
+    (forall d v i, In d L -> getf (fd_fid d) fs = Some v -> In i (items_of v) -> rec_ok E rec i) ->
+    (forall d key cn gf g fl pos cw s,
+       In d L -> In (GW (fd_fid d) key cn gf g fl pos) W -> wcodec_of cn = Some cw -> is_item_codec cw = true ->
+       getf (fd_fid d) fs = Some (FStr s) -> s = [] \/ iri_nilish s = false) ->
+    (forall d, In d L -> ihyps W fs init d) ->
+    exists out, gunmap_gen dec R (fst (gmap_gen enc W (pre_fields E fs))) init = Ok out /\
+                forall d, In d L -> onorm (ge_layout E) (ge_layout_endpoints E) out (fd_fid d) =
+                                    onorm (ge_layout E) (ge_layout_endpoints E) fs (fd_fid d).
+Proof. exact struct_rt. Qed.
+
+(* T.GobEncode followed by T.GobDecode into a zero value gives every property (Endpoints included) back
+   with the same normal form, for ANY decoder [rec] of the nested items that makes their round trip *)
+Theorem C03_fields_roundtrip :
   forall (k : kind) (rec : wire -> outcome item) (fs : list (fid * fval)) (d : fdecl) (out : list (fid * fval)),
-    In d (layout_of k) -> fd_type d <> TEndpoints ->
+    In d (layout_of k) ->
     (forall v, getf (fd_fid d) fs = Some v -> shape_ok (fd_type d) v = true) ->
     (forall v i, getf (fd_fid d) fs = Some v -> In i (items_of v) -> rec_ok genv rec i) ->
     rec_ok genv rec INil ->
     gunmap genv rec (rtable_method genv k) (fst (gmap genv (wtable genv k) (pre_fields genv fs))) [] = Ok out ->
     onorm layout_of layout_endpoints out (fd_fid d) = onorm layout_of layout_endpoints fs (fd_fid d).
 Proof.
-  intros k rec fs d out Hd Hne Hs Hr Hn Hu.
-  exact (field_rt genv k (tables_consistent_kind genv C03_tables_consistent k) rec fs d out eq_refl Hd Hne Hs Hr Hn Hu).
+  intros k rec fs d out Hd Hs Hr Hn Hu.
+  exact (field_rt_kind genv C03_whole_condition k rec fs d out Hn Hd Hs Hr Hu).
 Qed.
 
 Theorem C03_set_property_written_partial :
@@ -76,14 +165,16 @@ Theorem C03_set_property_written_partial :
       In (GW (fd_fid d) key cn gf g flag pos) (wtable genv k) /\ wcodec_of cn = Some c /\ wcodec_fits c (fd_type d) = true /\
       aget key (fst (gmap genv (wtable genv k) (pre_fields genv fs))) = Some (wenc genv c (Some (pre_fval genv v))).
 Proof.
-  intros k fs d v. exact (set_field_written genv k (tables_consistent_kind genv C03_tables_consistent k) fs d v).
+  intros k fs d v. exact (set_field_written_kind genv C03_whole_condition k fs d v).
 Qed.
 
-(* for ANY environment: every encoder / decoder pair the table condition admits is inverse up to the
-   normal form (Endpoints excepted) *)
-Theorem C03_codec_pairs_partial :
-  forall (E : gob_env) (rec : wire -> outcome item) t cw cr (ov : option fval) cur,
-    pair_ok true t cw cr = true -> t <> TEndpoints ->
+(* for every environment whose leaf tables pass the condition: every encoder / decoder pair the table
+   condition of the struct kinds admits is inverse up to the normal form - Source, PublicKey and Endpoints
+   (table-driven, one level down) included *)
+Theorem C03_codec_pairs :
+  forall (E : gob_env), gob_whole_ok E = true ->
+  forall (rec : wire -> outcome item) t cw cr (ov : option fval) cur,
+    pair_ok true t cw cr = true ->
     (forall v, ov = Some v -> shape_ok t v = true) ->
     (forall v i, ov = Some v -> In i (items_of v) -> rec_ok E rec i) ->
     rec_ok E rec INil ->
@@ -92,7 +183,7 @@ Theorem C03_codec_pairs_partial :
     exists v', rdec E rec cr cur (wenc E cw (option_map (pre_fval E) ov)) = Ok v' /\
                norm_fval (ge_layout E) (ge_layout_endpoints E) v' =
                match ov with Some v => norm_fval (ge_layout E) (ge_layout_endpoints E) v | None => None end.
-Proof. exact codec_pair_sound. Qed.
+Proof. exact codec_pairs_kind. Qed.
 
 (* a guard the condition admits holds on every value with a non-empty normal form *)
 Theorem C03_guards_partial :
@@ -115,6 +206,7 @@ Definition C03_deep : item :=
         [(F_ID, FStr (B "https://example.com/u")); (F_Type, FStr (B "Person"));
          (F_Endpoints, FEndpoints (Some [(F_SharedInbox, IIri false (B "https://example.com/inbox"))]));
          (F_PublicKey, FPubKey [] (B "https://example.com/u") [])]));
+     (F_Source, FSource (B "text/markdown") (Some [(B "en", B "*hello*")]));
      (F_Origin, FItem (IObj false KPlace [(F_Type, FStr (B "Place")); (F_Latitude, FFloat (-12500000)); (F_Longitude, FFloat 7250000)]));
      (F_Object, FItem (IObj true KOrderedPage
         [(F_ID, FStr (B "https://example.com/p")); (F_Type, FStr (B "OrderedCollectionPage")); (F_TotalItems, FUint 2);
@@ -126,6 +218,50 @@ Proof. vm_compute. reflexivity. Qed.
 
 Example C03_deep_roundtrip : roundtrip_ok genv C03_deep = true.
 Proof. vm_compute. reflexivity. Qed.
+
+(* the hypotheses of C03_roundtrip and of C03_method_roundtrip are satisfiable by non-trivial values; the
+   explicit precondition: every struct of C03_deep carries a type name that selects it *)
+Example C03_deep_type_selects :
+  type_selects genv KActivity (B "Create") = true /\ type_selects genv KLink (B "Mention") = true /\
+  type_selects genv KObject [] = true /\ type_selects genv KActor (B "Person") = true /\ type_selects genv KActor [] = false.
+Proof. vm_compute. repeat split; reflexivity. Qed.
+
+Definition C03_actor_fields : list (fid * fval) :=
+  [(F_ID, FStr (B "https://example.com/u")); (F_Inbox, FItem (IIri false (B "https://example.com/inbox")));
+   (F_Source, FSource (B "text/markdown") (Some [(B "en", B "*x*")]));
+   (F_Endpoints, FEndpoints (Some [(F_SharedInbox, IIri false (B "https://example.com/shared"));
+                                   (F_UploadMedia, IObj true KObject [(F_Name, FNlv (Some [(B "en", B "up")]))])]));
+   (F_PublicKey, FPubKey (B "https://example.com/u#k") (B "https://example.com/u") (B "PEM"))].
+
+(* an Actor WITHOUT a type name: outside wf_gob as an item, inside the domain of the method route *)
+Example C03_method_in_domain :
+  forallb (fun p => match ftype genv KActor (fst p) with Some t => shape_ok t (snd p) | None => true end && wf_gob_fval genv (snd p))
+          C03_actor_fields = true /\
+  wf_gob genv (IObj true KActor C03_actor_fields) = false /\
+  match gdec_k genv KActor (genc_k genv KActor C03_actor_fields) with
+  | Ok out => list_eqb (pair_eqb fid_beq fval_eqb) (norm_fields layout_of layout_endpoints KActor out)
+                       (norm_fields layout_of layout_endpoints KActor C03_actor_fields)
+  | _ => false
+  end = true.
+Proof. vm_compute. repeat split; reflexivity. Qed.
+
+(* the hypotheses of the generic statements are satisfied by the tables of this run, at both levels *)
+Example C03_struct_ok_instances :
+  struct_ok fits0 pair_ok0 (leaf_layout genv n_source) (leaf_w genv n_source) (leaf_r genv n_source) = true /\
+  struct_ok fits0 pair_ok0 (leaf_layout genv n_pubkey) (leaf_w genv n_pubkey) (leaf_r genv n_pubkey) = true /\
+  struct_ok fits0 pair_ok0 (leaf_layout genv n_endpoints) (leaf_w genv n_endpoints) (leaf_r genv n_endpoints) = true /\
+  forallb (fun k => struct_ok wcodec_fits (pair_ok true) (layout_of k) (wtable genv k) (rtable_method genv k)) all_kinds = true /\
+  pair_ok true TSource CwSource CrSource = true /\ pair_ok true TEndpoints CwEndpoints CrEndpointsFn = true /\
+  pair_ok true TPubKey CwPubKey CrPubKey = true /\ pair_ok0 TString CwItem CrIri = true.
+Proof. vm_compute. repeat split; reflexivity. Qed.
+
+(* the sniffing condition is about the ORDER: tried in another order the same attempts mis-sniff *)
+Example C03_sniff_order_matters :
+  sniff_ok [GSTry fn_try_iris []; GSTry fn_try_items []; GSMap fn_as_map (B "type") true []; GSTry fn_try_iri []; GSFail []] = false /\
+  sniff_ok [GSTry fn_try_items []; GSTry fn_try_iris []; GSTry fn_try_iri []; GSMap fn_as_map (B "type") true []; GSFail []] = false /\
+  sniff_ok [GSMap fn_as_map (B "type") true []; GSTry fn_try_items []; GSTry fn_try_iris []; GSTry fn_try_iri []] = true /\
+  sniff_ok (ge_sniff genv_pinned) = false.
+Proof. vm_compute. repeat split; reflexivity. Qed.
 
 (* ---------------------------------------------------------------- the pinned tree *)
 Theorem C03_pinned_tables_inconsistent :
